@@ -3,8 +3,8 @@ from props_common import *
 PROP = dict(
     title="Sparse Merkle state persists completely in its node storage",
     family="smt", harness="smt", run_vo="Run/Smt.vo",
-    theorems=["C13_inv_preserved", "C13_reload_same", "C13_reload_transparent", "C13_load_empty", "C13_load_missing"],
-    open_statements=["C13_nodes_from_set_full_statement: the node list of nodes_from_set, loaded at the returned root, is a persisted tree of the set's map (not proved; OFromNodes histories in the correspondence run and the harness oracle)"],
+    theorems=["C13_inv_preserved", "C13_reload_same", "C13_reload_transparent", "C13_load_empty", "C13_load_missing", "C13_nodes_from_set"],
+    open_statements=[],
     translators=[],
     quick_shards=8,
     trusted_base=[SHA_NOTE,
